@@ -242,6 +242,21 @@ impl Scenario for C17 {
                             }
                         }
                     }
+                    // a connection's entry carries a public key only once that key has authenticated on it (a
+                    // refused response leaves no key behind: the entry would later be collected under that key)
+                    {
+                        let peers = block_on(sim.nodes[n].peer_lock.read());
+                        for (idx, p) in peers.index_to_peers.iter() {
+                            if let Some(k) = p.public_key {
+                                if !mon.auth.iter().any(|a| a.0 == (n, *idx) && a.1 == k) {
+                                    r.violate(
+                                        "C17|key-recorded-without-authentication",
+                                        format!("node{}: the entry of connection {} carries a public key that never authenticated on that connection (status connected: {})", n, idx, matches!(p.peer_status, PeerStatus::Connected)),
+                                    );
+                                }
+                            }
+                        }
+                    }
                     // the key index never names a connected peer that holds another key
                     {
                         let peers = block_on(sim.nodes[n].peer_lock.read());
